@@ -48,14 +48,16 @@ theorem groupKey_determines_metadata {fn : String} (h : keysCover fn = true)
   have e4 := six "reinsurance_basis" (by simp)
   have e5 := six "loss_definition" (by simp)
   have e6 := six "per_occurrence_limit" (by simp)
-  unfold rowMetadata
+  unfold rowMetadata rowStr rowDetails
   simp only [e1, e2, e3, e4, e5, e6]
   congr 2
   · apply filterMap_congr'
     intro x hx
+    unfold rowDetail
     rw [hd x (List.mem_filter.mp hx).1]
   · apply filterMap_congr'
     intro x hx
+    unfold rowDetail
     rw [hl x hx]
 
 
